@@ -305,7 +305,10 @@ def load_findings(prop):
     if not os.path.exists(p):
         return []
     d = json.load(open(p))
-    return [f for f in d.get('findings', []) if f.get('property') == prop]
+    def applies(f):
+        pr = f.get('property')
+        return pr == prop or (isinstance(pr, list) and prop in pr)
+    return [f for f in d.get('findings', []) if applies(f)]
 
 
 # ------------------------------------------------------------------ the check context
